@@ -585,6 +585,13 @@ def run(ctx: Ctx) -> int:
     ok = bool(tr) and any(set(handler_type_names(h)) & {"Exception", "BaseException"} and any(isinstance(x, ast.Raise) for x in ast.walk(h)) for h in tr[0].handlers) and any(call_leaf(c) == "getsource" for c in calls_in(tr[0]) if any(c is x for s in tr[0].body for x in ast.walk(s)))
     ctx.oblige("C13.g", ok, tr[0] if tr else fpst, "any failure to obtain or parse the component's source is turned into one exception the chain falls through on", fn=fpst)
 
+    # the resolver recognises `self.x` / `super(C, self)` by the NAME of the method's first parameter; that parameter
+    # may be positional-only (`def __init__(self, /, **kwargs)`): the name is the first of posonlyargs + args
+    sn = [s_ for s_ in walk_local(fpst) if isinstance(s_, ast.Assign) and any(isinstance(t, ast.Attribute) and t.attr == "self_name" for t in s_.targets)]
+    ctx.need(len(sn) == 1, "parse_source_tree: self.self_name = ...")
+    okp = "posonlyargs" in ast.unparse(sn[0].value) or any("posonlyargs" in ast.unparse(a_.value) for a_ in _assigns(fpst) if a_.targets[0].id in {x.id for x in ast.walk(sn[0].value) if isinstance(x, ast.Name)})
+    ctx.oblige("C13.g", okp, sn[0], "the instance parameter's name is looked up among positional-only and ordinary parameters" if okp else "the instance parameter's name is read from `args.args[0]` only: for `def __init__(self, /, **kwargs): super().__init__(a=5, **kwargs)` that raises IndexError, the source-based resolver gives up, and the assumption fallback offers the hard-coded `a` (instantiation: got multiple values for keyword argument 'a')", fn=fpst, construct="instance name with positional-only parameters")
+
     # =========================================================== C13.h
     fif = ctx.func(f"{M}:ParametersVisitor.visit_If")
     # names by role
